@@ -472,6 +472,49 @@ def check_vanishdep(res, facts):
         (rule.bad if problems else rule.ok)(key, "; ".join(problems) if problems else ("shifted - offset^size * p" if name.startswith("mul") else "quotient blocks weighted by offset^(size*i); remainder = low part + offset^size * quotient"), f.loc)
 
 
+def check_evalpaths(res, facts):
+    """Polynomial::evaluate (dense and sparse univariate): every value the function can return is the zero of the zero
+    polynomial, the full sum over ALL stored coefficients, or -- for the dense form only, where coeffs[0] is the constant
+    term -- coeffs[0] on the arm that has tested the point for zero.  A shortcut that returns a single stored entry of a
+    sparse polynomial (whose first entry is its lowest, not necessarily constant, term) is a wrong value at that point."""
+    from rules.c07 import E, show, norm, A, C
+    rule = res.rule("R-EVALPATHS", "Polynomial::evaluate returns only zero (zero polynomial), the full sum over all coefficients, or the dense constant term at point 0", 2)
+    for kind in ("dense", "sparse"):
+        fs = [f for f in facts.fns(unit="ws", crate="ark_poly") if f.kind != "Closure" and f.name == "evaluate" and (".univariate::%s::" % kind).replace(".", "") in f.id.replace("polynomial::", "") and (f.trait_impl or "").endswith("Polynomial")]
+        key = "ark_poly|univariate::%s::evaluate" % kind
+        if not fs:
+            rule.bad(key, "anchor missing")
+            continue
+        f = fs[0]
+        r = DF.expr(f, {"c": 0}, depth=30)
+        alts = DF.phi_alts(f, r) if isinstance(r, tuple) and r and r[0] == "phi" else [r]
+        if not alts:
+            rule.undecided(key, "return value has a partial definition", f.loc)
+            continue
+        guards = [show(E(f, b["t"]["o"])) for b in f.bbs if b["t"]["k"] == "switch"]
+        problems, kinds = [], []
+        for a in alts:
+            a = norm(a)
+            txt = show(a)
+            full = (isinstance(a, tuple) and a[0] == "call" and ((a[1] in ("internal_evaluate", "horner_evaluate") and a[2][:1] == (A(1),)) or
+                    (a[1] == "sum" and "iter(arg1.coeffs)" in txt and not any(x in txt for x in ("skip(", "take(", "step_by(", "filter(")))))
+            if a == 0:
+                kinds.append("zero")
+                if "is_zero(arg1)" not in guards:
+                    problems.append("returns zero without having tested the polynomial for zero")
+            elif full:
+                kinds.append("sum")
+            elif kind == "dense" and a == C("index", A(1, "coeffs"), 0):
+                kinds.append("const-term")
+                if "is_zero(arg2)" not in guards:
+                    problems.append("returns coeffs[0] without having tested the point for zero")
+            else:
+                problems.append("can return %s: %s" % (txt[:80], "the first stored term of a sparse polynomial is its lowest term, not its constant term -- for a polynomial without a degree-0 term this is not the value at the point" if kind == "sparse" and "coeffs" in txt else "neither the full sum over the coefficients nor an admitted special case"))
+        if "sum" not in kinds:
+            problems.append("no path returns the sum over all coefficients")
+        (rule.bad if problems else rule.ok)(key, "; ".join(problems) if problems else "returns: %s" % ", ".join(kinds), f.loc)
+
+
 def run(ctx, res):
     facts = ctx.facts(["ws"])
     res.analysed = facts.stats()
@@ -481,6 +524,7 @@ def run(ctx, res):
     lincomb.check_poly_ops(res, facts)
     check_cosetfold(res, facts)
     check_vanishdep(res, facts)
+    check_evalpaths(res, facts)
     return {
         "level": "other",
         "explanation": "Typestate (must-pass-through) analysis over the MIR of ark-poly: every write access to a dense polynomial's coefficient vector must be followed on all paths by the strip-leading-zeros loop; computed sparse terms must be pushed under a non-zero guard; structure of division; operators defined through other operators evaluated symbolically as linear combinations of their operands. Does NOT decide coefficient-level results (loops over run-time lengths), FFT multiplication or evaluation.",
